@@ -69,6 +69,24 @@ type MemStore struct {
 	ReadDelay     time.Duration
 	// DeferTombstone: tombstoned files stay readable (a store that garbage-collects lazily)
 	DeferTombstone bool
+	// HonourCtx: CreateFile, OpenFile, TombstoneFile (and FaultMeta.Update) refuse a context that is already
+	// done, as a store backed by a network client would; the refusal is logged as a failed call with N = -1.
+	HonourCtx bool
+	// CloseErrEvery: every k-th Close of a read handle reports an error after releasing the handle (a remote
+	// stream reporting a deferred transport error); 0 = never.
+	CloseErrEvery int64
+	closeCount    atomic.Int64
+}
+
+func (s *MemStore) refused(ctx context.Context, op, file string) bool {
+	if !s.HonourCtx || ctx.Err() == nil {
+		return false
+	}
+	s.mu.Lock()
+	s.seq++
+	s.log = append(s.log, StoreCall{Seq: s.seq, Op: op, File: file, N: -1, Err: true, Gor: goid()})
+	s.mu.Unlock()
+	return true
 }
 
 type handleEvent struct {
@@ -224,6 +242,9 @@ func (s *MemStore) CreateFile(ctx context.Context) (io.WriteCloser, []byte, erro
 	s.next++
 	name := fmt.Sprintf("f%04d", s.next)
 	s.mu.Unlock()
+	if s.refused(ctx, "create", name) {
+		return nil, nil, ctx.Err()
+	}
 	if s.call("create", name, 0) {
 		return nil, nil, errInjected
 	}
@@ -353,11 +374,17 @@ func (r *memReader) Close() error {
 	}
 	r.s.openHandles.Add(-1)
 	r.s.call("closeR", r.name, 0)
+	if k := r.s.CloseErrEvery; k > 0 && r.s.closeCount.Add(1)%k == 0 {
+		return errors.New("deferred transport error reported at Close (the handle is released)")
+	}
 	return nil
 }
 
 func (s *MemStore) TombstoneFile(ctx context.Context, ptr []byte) error {
 	name := string(ptr)
+	if s.refused(ctx, "tombstone", name) {
+		return ctx.Err()
+	}
 	failed := s.call("tombstone", name, 0)
 	if failed {
 		return errInjected
@@ -387,6 +414,9 @@ func (m *FaultMeta) Update(ctx context.Context, w []bs.WriteOperation, d []bs.De
 	}
 	for _, x := range d {
 		ds = append(ds, string(x.FilePointerBytes))
+	}
+	if m.s.refused(ctx, "update", "w="+strings.Join(ws, ",")+";d="+strings.Join(ds, ",")) {
+		return ctx.Err()
 	}
 	if m.s.call("update", "w="+strings.Join(ws, ",")+";d="+strings.Join(ds, ","), len(w)+len(d)) {
 		return errInjected
